@@ -397,3 +397,32 @@ def h_repeat_l2(E, shape):
     if A["res"] is not None and B["res"] is not None:
         E.prove(A["res"].status == B["res"].status and A["res"].iterations == B["res"].iterations and A["res"].num_accepted_steps == B["res"].num_accepted_steps, pre + "same_status_and_counters")
         E.prove(common.eq_all(result_terms(A["res"]), result_terms(B["res"])), pre + "same_solution")
+
+
+def h_second_solve_penalty(E, shape):
+    """C16 on a second solve of the same Solver object: the penalty sequence of that solve obeys the
+    same rules, starting again from params.rho (nothing of the first solve's penalty survives)"""
+    env = shared(E, shape)
+    lim = dict(iteration_limit=env.K)
+    A = solve_once(env, "a", lim)
+    B = solve_once(env, "b", lim, script=A.trials, solver=A.solver)
+    tr = B.trials
+    if not tr:
+        return
+    p = B.params
+    E.prove(tr[0]["rho"] == p.rho, "C16.second_solve.initial_rho_is_params_rho")
+    for k, t in enumerate(tr):
+        E.prove(t["rho"] > 0, "C16.second_solve.rho_positive")
+        if k == 0:
+            continue
+        q = tr[k - 1]
+        E.prove(t["rho"] >= q["rho"], "C16.second_solve.rho_monotone")
+        if env.pol == "Constant":
+            E.prove(t["rho"] == q["rho"], "C16.second_solve.constant_policy_never_changes")
+        if env.pol == "DualNorm":
+            if q["acc"]:
+                yn = common.inf_norm(items(q["nxt"].y))
+                E.prove(t["rho"] <= smax(q["rho"], yn), "C16.second_solve.dualnorm_bounded_by_multiplier_norm")
+                E.prove(t["rho"] <= 10.0 * q["rho"], "C16.second_solve.dualnorm_at_most_tenfold")
+            else:
+                E.prove(t["rho"] == q["rho"], "C16.second_solve.rho_changes_only_on_accept")
